@@ -134,6 +134,11 @@ def run_network(case, out, tube, mat, solver):
     net.add_node(1)
     ts = spring.TubeSpring(tube, solver, mat)
     net.add_edge(0, 1, object=ts)
+    if case.get("parallel"):
+        # a second, different tube between the same two nodes (parallel edges of the multigraph)
+        other = case["parallel"]
+        tube_b = make_tube(other)
+        net.add_edge(0, 1, object=spring.TubeSpring(tube_b, make_solver(other.get("params")), make_material(other["material"])))
     net.displacement_bc(0, lambda t: 0.0)
     # SpringNetwork.fj: the extension of the edge (0, 1) is u0 - u1
     net.displacement_bc(1, lambda t: -float(np.interp(t, times, dtop)))
